@@ -93,7 +93,7 @@ def derivedSexp (wantJson wantString : Bool) (attrs : List (String × List Strin
     let as := match attrs.find? (·.1 == d.name) with
       | some (_, xs) => xs.map String.toList
       | none => dflt
-    (expandImpls bindFresh as d).map fun m => Sexp.list [.atom "impl", .atom d.name, methodSexp m])
+    (expandImplsSrc bindFresh as d).map fun m => Sexp.list [.atom "impl", .atom d.name, methodSexp m])
 
 def decAttrs : Sexp → Option (String × List String)
   | .list (.atom n :: xs) => some (n, xs.filterMap Sexp.str?)
@@ -141,7 +141,13 @@ def runLine (l : String) : String :=
     modelLine id flags defs vals attrs
   | some (.list (.atom "attrprobe" :: as)) =>
     let xs := (as.filterMap Sexp.str?).map String.toList
-    s!"{id}\tattrs\t{if derivesTrait xs "ToJson".toList then "yes" else "no"}\t{if derivesTrait xs "ToString".toList then "yes" else "no"}"
+    s!"{id}\tattrs\t{if derivesTraitSrc xs "ToJson".toList then "yes" else "no"}\t{if derivesTraitSrc xs "ToString".toList then "yes" else "no"}"
+  | some (.list [.atom "hygiene", .atom method, .atom top, .list (.atom "case" :: _ :: .list (.atom "defs" :: defs) :: _)]) =>
+    match optMapM decDef defs with
+    | some Δ =>
+      let ok := Δ.all fun d => ((if method == "to_json" then genJson bindFresh d else genString bindFresh d).hygienic [top])
+      s!"{id}\thygiene\t{if ok then "hygienic" else "captured"}"
+    | none => s!"{id}\tparse-error"
   | some (.list [.atom "oracle", .list (.atom "defs" :: defs), .list (.atom "vals" :: vals), .list (.atom "lines" :: lines)]) =>
     oracleLine id defs vals lines
   | some (.list [.atom "fmt", size, bits]) =>
